@@ -38,6 +38,16 @@ def mk(items, kind):
     from vyxal.LazyList import LazyList
 
     src = Src(list(items))
+    if kind in ("copy", "copy_partial"):
+        # a deep_copy (backed by itertools.tee over the original's iterator) is a lazy list over the same finite sequence too
+        from vyxal.helpers import deep_copy
+
+        orig = LazyList(src)
+        if kind == "copy_partial" and items:
+            orig[0]
+        c = deep_copy(orig)
+        c._keepalive = orig
+        return c, src
     if kind == "iter":
         return LazyList(src), src
     else:  # a generator source, as the @lazylist elements produce
@@ -371,6 +381,10 @@ def run(tier, seed):
         # generator-backed sources at depth 2 as well
         for items in srcs:
             shards.append(([items], "gen", 2, OPNAMES))
+    # copies (tee-backed lazy lists) as the object under observation
+    for items in srcs:
+        for k in ("copy", "copy_partial"):
+            shards.append(([items], k, 2 if tier == "quick" else 3, OPNAMES))
     # deeper, still WITHOUT dedup, over the observations that create / advance persistent copies and iterators: a suspended
     # iterator carries hidden state (its resume point) that no canonical form over the list's own fields can see
     focus = ["idx0", "idx1", "len", "bool", "listify", "idx-1", "mkcopy", "copy.next", "copy.all", "mkiter", "iter.next", "iter.rest",
